@@ -15,10 +15,11 @@ from simkit.sched import SimAbort
 from simkit import simtime
 from simkit.shrink import shrink_list_at, replace_at
 from . import BaseEngine, Violation
-from .ports_conc import make_msg, ident, mutate
+from .ports_conc import make_msg as _make_msg, ident, mutate
 
 mido = bootstrap()
 import mido.ports as mports  # noqa: E402
+from mido.frozen import freeze_message  # noqa: E402
 
 KINDS = ('dev_io', 'dev_in', 'dev_out', 'echo', 'ioport', 'multi')
 STYLES = ('old', 'new', 'blocking', 'bytewise')
@@ -68,6 +69,12 @@ class RandomShim:
         if len(lst) > 1 and k % len(lst):
             k %= len(lst)
             lst[:] = lst[k:] + lst[:k]
+
+
+def make_msg(shape, sender, seq, pad):
+    if shape == 'sysex0':
+        return mido.Message('sysex', data=())       # a sysex without payload: two bytes on the wire
+    return _make_msg(shape, sender, seq, pad)
 
 
 class Device:
@@ -238,7 +245,7 @@ class Lifecycle(BaseEngine):
         spec = {'style': pick(rng, STYLES), 'arrivals': []}
         for _ in range(weighted(rng, ((0, 1), (1, 2), (2, 3), (3, 2), (5, 1)))):
             spec['arrivals'].append([pick(rng, (0.0, 0.0, 0.0005, 0.003, 0.25, rng.random())),
-                                     pick(rng, SHAPES + (('split_sysex',) if split_ok else ())), rng.randrange(128)])
+                                     pick(rng, SHAPES + (('split_sysex', 'sysex0') if split_ok else ())), rng.randrange(128)])
         if can_hang and rng.random() < 0.45:
             n = len(spec['arrivals'])
             spec['hangup'] = [rng.randint(0, n), pick(rng, (0.0, 0.0, 0.001, 0.02, 0.3))]
@@ -282,13 +289,13 @@ class Lifecycle(BaseEngine):
         for _ in range(rng.randint(1, 12)):
             k = weighted(rng, weights)
             if k == 'send':
-                ops.append([k, pick(rng, SHAPES), rng.randrange(128)])
+                ops.append([k, pick(rng, SHAPES + ('sysex0',)), rng.randrange(128), rng.random() < 0.2])
             elif k == 'iter':
                 ops.append([k, pick(rng, (None, None, 0, 1, 2)), rng.randint(1, 4)])
             elif k == 'advance':
                 ops.append([k, pick(rng, (0.0005, 0.003, 0.02, 0.3, 1.0))])
             elif k == 'with':
-                ops.append([k, pick(rng, ('empty', 'raise', 'poll', 'send'))])
+                ops.append([k, pick(rng, ('empty', 'raise', 'poll', 'send', 'raise_os', 'raise_os', 'raise_value'))])
             else:
                 ops.append([k])
             if k == 'del':
@@ -621,10 +628,13 @@ class Lifecycle(BaseEngine):
                 raise Violation(f'close-never-returned@{kind}', 'close() did not return')
             verify_closed(where, snap)
 
-        def do_send(shape, pad):
+        def do_send(shape, pad, frozen=False):
             s = st['send_seq']
             st['send_seq'] += 1
             m = make_msg(shape, 0, s % 128, pad)
+            if frozen:
+                m = freeze_message(m)           # immutable flavour of the same message (mido.frozen)
+                stats['fault:frozen_message_sent'] += 1
             snap = snapshot()
             open_subs = [i for i, sp in enumerate(subs) if not sp.closed] if is_multi else None
             (tag, res), dt, sl = call('send', P().send, m, expect=(ValueError, OSError))
@@ -651,7 +661,7 @@ class Lifecycle(BaseEngine):
                 return
             targets = [(out_devs[i], snap['sent'][i]) for i in (open_subs if is_multi else [0])]
             for d, n0 in targets:
-                if len(d.sent) != n0 + 1 or not (d.sent[-1] == m) or d.sent[-1] is m:
+                if len(d.sent) != n0 + 1 or not (d.sent[-1] == m) or (d.sent[-1] is m and not frozen):
                     raise Violation(f'send-not-delivered@{kind}', f'send({m!r}) gave a device {d.sent[n0:]!r}')
 
         by = mports.EchoPort('bystander') if plan.get('bystander') else None
@@ -690,7 +700,7 @@ class Lifecycle(BaseEngine):
                 log.ev('advance', op[1])
             elif k == 'send':
                 if can_out:
-                    do_send(op[1], op[2])
+                    do_send(op[1], op[2], len(op) > 3 and bool(op[3]))
             elif k == 'recv':
                 if can_in and do_recv_blocking('receive') == 'end':
                     stop = True
@@ -792,6 +802,12 @@ class Lifecycle(BaseEngine):
                             raise Violation(f'with-returns-other@{kind}', '__enter__ did not return the port')
                         if body == 'raise':
                             raise BodyError('body')
+                        if body == 'raise_os':
+                            # the application's own I/O failed inside the block (not the port's)
+                            raise (FileNotFoundError, TimeoutError, BrokenPipeError, OSError)[len(plan['ops']) % 4](
+                                5, 'body-os')
+                        if body == 'raise_value':
+                            raise KeyError('body-value')
                         if body == 'poll' and can_in and not P().closed:
                             do_recv_nb('poll', lambda: P().poll())
                         if body == 'send' and can_out and not P().closed:
@@ -803,9 +819,13 @@ class Lifecycle(BaseEngine):
                 except (Violation, SimAbort):
                     raise
                 except BaseException as e:
-                    raise Violation(f'raised:{type(e).__name__}@{kind}.with',
-                                    f'with-block on {kind} raised {type(e).__name__}: {e}')
-                if body == 'raise' and raised is None:
+                    if body in ('raise_os', 'raise_value') and e.args and e.args[-1] in ('body-os', 'body-value'):
+                        raised = e
+                        stats['fault:with_body_raised_' + ('oserror' if body == 'raise_os' else 'keyerror')] += 1
+                    else:
+                        raise Violation(f'raised:{type(e).__name__}@{kind}.with',
+                                        f'with-block on {kind} raised {type(e).__name__}: {e}')
+                if body.startswith('raise') and raised is None:
                     raise Violation(f'with-swallowed-exception@{kind}', 'the with-block swallowed the body exception')
                 verify_closed('with-exit', snap)
                 stats['probe:with_block'] += 1
